@@ -187,9 +187,16 @@ def cat(parts, axis=0):
 cat.register(arraylist)(np.concatenate)
 
 
+_max, _min = max, min  # the ops; clamp's parameters shadow these names
+
+
 @UnaryOp.make
 def clamp(x, min=None, max=None):
-    return min(max(x, min), max)
+    if min is not None:
+        x = _max(x, min)
+    if max is not None:
+        x = _min(x, max)
+    return x
 
 
 clamp.register(array)(np.clip)
